@@ -253,7 +253,7 @@ def gen_sets(rng, tier):
             if rng.chance(1, 2):
                 sets.append(([o, base, o, base, base], "pair-dup"))
     # clusters: a few groups sharing long prefixes
-    for _ in range(24 if quick else 600):
+    for _ in range(24 if quick else 150):
         leaves = []
         for _g in range(1 + rng.below(3)):
             base = rng.bytes(32)
@@ -286,7 +286,7 @@ def gen_sets(rng, tier):
     for leaves, kind in sets:
         out.append((leaves, kind))
         if len(leaves) >= 2 and kind not in ("pair", "pair-dup"):
-            cheap = tier != "quick" or hash_cost(ref_root, leaves) <= 100
+            cheap = hash_cost(ref_root, leaves) <= (100 if tier == "quick" else 150)
             l2 = list(leaves)
             rng.shuffle(l2)
             for _ in range(1 + rng.below(3)):
@@ -321,7 +321,7 @@ def gen_items(rng, leaves, tier):
         items += [b"\x00" * 32, b"\xff" * 32]
     # the model's SHA-256 costs ~3 ms per node hash: bound (2 + queries) * hashes per line
     h = max(1, hash_cost(ref_root, leaves))
-    q = max(1, (300 if tier == "quick" else 8000) // h - 2)
+    q = max(1, (300 if tier == "quick" else 1200) // h - 2)
     return items[:q]
 
 
@@ -372,8 +372,8 @@ def check_set_output(rep, line, items, leaves, out):
 def candidate_lines(rng, tier, set_cases, impl_out):
     """mutants of the honest proofs the implementation produced -> [(validate line, meta)]"""
     cands = []
-    budget = 1000 if tier == "quick" else 40000
-    hcost, hbudget = 0, (7000 if tier == "quick" else 600000)
+    budget = 1000 if tier == "quick" else 12000
+    hcost, hbudget = 0, (7000 if tier == "quick" else 150000)
     order = list(range(len(set_cases)))
     rng.shuffle(order)
     for ci in order:
@@ -462,7 +462,7 @@ def nesting_cases(rng):
 
 def malformed_cases(rng, tier):
     out = []
-    for _ in range(100 if tier == "quick" else 5000):
+    for _ in range(100 if tier == "quick" else 2000):
         n = rng.choice([0, 1, 2, 3, 33, 34, 35, 66, 67, 68, 100])
         b = bytearray(rng.bytes(n))
         # bias the tag positions towards valid tags so that parsing gets somewhere
@@ -472,19 +472,63 @@ def malformed_cases(rng, tier):
     return out
 
 
+def is_timeout(o):
+    return o == "TIMEOUT"
+
+
+def run_spread(binary, lines, timeout):
+    """C.run_lines cuts the case list into CONTIGUOUS chunks; expensive cases are generated next to each other
+    (deep clusters, large sets, one proof's mutants), so the list is run in a fixed pseudo-random order and the
+    answers are put back in place: every chunk then gets about the same share of the expensive cases."""
+    order = list(range(len(lines)))
+    C.SplitMix64(0x5EED + len(lines)).shuffle(order)
+    out = C.run_lines(binary, [lines[i] for i in order], timeout=timeout)
+    res = [None] * len(lines)
+    for pos, i in enumerate(order):
+        res[i] = out[pos]
+    return res
+
+
+def run_model(lines, tier):
+    return run_spread(C.VRUN(UNIT), lines, 900 if tier == "quick" else 1500)
+
+
 def run_impl(lines, tier, timeout=None):
-    """run the implementation side; a shard that hangs (TIMEOUT) is re-run line by line with a short
-    timeout so that the hanging case itself is identified and the others still get their result"""
-    from concurrent.futures import ThreadPoolExecutor
+    """run the implementation side.  C.run_lines already re-runs a timed-out chunk line by line (in parallel);
+    a line that still times out there is re-run once more ALONE, sequentially (at most 3 of them), so that a
+    TIMEOUT that survives means: this very line does not answer within the timeout on its own."""
     timeout = timeout or (90 if tier == "quick" else 900)
-    out = C.run_lines(C.VH(UNIT), lines, timeout=timeout)
-    idx = [i for i, o in enumerate(out) if o == "TIMEOUT"]
-    if idx:
-        with ThreadPoolExecutor(max_workers=C.NPROC) as ex:
-            res = list(ex.map(lambda i: C._run_shard((C.VH(UNIT), [lines[i]], max(10, timeout // 6)))[0], idx))
-        for i, r in zip(idx, res):
-            out[i] = r
+    out = run_spread(C.VH(UNIT), lines, timeout)
+    idx = [i for i, o in enumerate(out) if is_timeout(o)]
+    for i in idx[:3]:
+        out[i] = C._run_shard((C.VH(UNIT), [lines[i]], timeout))[0]
     return out
+
+
+def note_unchecked(rep, name, n, why):
+    if n:
+        u = rep.extra.setdefault("unchecked", {})
+        u[name] = u.get(name, 0) + n
+        rep.streams.setdefault(name, {})["unchecked"] = rep.streams.get(name, {}).get("unchecked", 0) + n
+        rep.notes.append("%s: %d case(s) unchecked (%s)" % (name, n, why))
+
+
+def checked_diff(rep, name, lines, impl, model, key):
+    """diff_stream on the cases both sides answered.  The model (reference) timing out is machine overload:
+    unchecked.  The implementation timing out alone (see run_impl) while the model answered is a hang: failure."""
+    keep = []
+    unch = 0
+    for k, (l, i, m) in enumerate(zip(lines, impl, model)):
+        if is_timeout(m):
+            unch += 1
+        elif is_timeout(i):
+            rep.add_failure(name, l, i, m, "the implementation does not answer this case within the timeout when run alone, "
+                            "while the model answers: hang")
+        else:
+            keep.append(k)
+    note_unchecked(rep, name, unch, "model runner timed out: machine overload")
+    diff_stream(rep, name, [lines[k] for k in keep], [impl[k] for k in keep], [model[k] for k in keep], key)
+    return set(keep)
 
 
 def run(ctx):
@@ -504,7 +548,7 @@ def run(ctx):
                 rep.add_failure(line.split(" ")[0], line, impl[0], "OK", "implementation-level oracle fails on the replayed case")
             rep.evaluations += 1
             return
-        model = C.run_lines(C.VRUN(UNIT), [line]) if have_model else ["MODEL-UNAVAILABLE"]
+        model = run_model([line], tier) if have_model else ["MODEL-UNAVAILABLE"]
         diff_stream(rep, line.split(" ")[0], [line], impl, model)
         if line.startswith("mset.set "):
             toks = line.split(" ")
@@ -521,19 +565,30 @@ def run(ctx):
     sets = gen_sets(rng.fork("sets"), tier)
     irng = rng.fork("items")
     set_cases = []
-    deep_budget = 5000 if tier == "quick" else 10 ** 9     # node hashes spent on sets with long hashed chains
+    est_hashes = 0
+    # node hashes spent on sets with long hashed chains / many leaves (the model's SHA-256 is slow);
+    # thorough: a separate allowance for the large random sets so that the clusters cannot use it up
+    deep_budget = 5000 if tier == "quick" else 120000
+    big_budget = 0 if tier == "quick" else 60000
     for leaves, kind in sets:
         h = hash_cost(ref_root, leaves)
         if h > 60:
-            if 3 * h > deep_budget:
-                continue
-            deep_budget -= 3 * h
+            if tier != "quick" and kind.startswith("random"):
+                if 3 * h > big_budget:
+                    continue
+                big_budget -= 3 * h
+            else:
+                if 3 * h > deep_budget:
+                    continue
+                deep_budget -= 3 * h
         items = gen_items(irng, leaves, tier)
+        est_hashes += (2 + len(items)) * max(1, h)
         set_cases.append((set_line(items, leaves), items, leaves, kind))
+    rep.streams.setdefault("mset.set", {})["est_model_node_hashes"] = est_hashes
     lines = [c[0] for c in set_cases]
     impl = run_impl(lines, tier)
     tm["set_impl"] = round(time.time() - t0, 1)
-    model = C.run_lines(C.VRUN(UNIT), lines) if have_model else ["MODEL-UNAVAILABLE"] * len(lines)
+    model = run_model(lines, tier) if have_model else ["MODEL-UNAVAILABLE"] * len(lines)
     tm["set_model"] = round(time.time() - t0, 1)
     meta = {c[0]: c for c in set_cases}
 
@@ -543,16 +598,19 @@ def run(ctx):
         verd = "".join(t[0] for t in toks[2::2])
         return ("set", size_class(len(set(leaves))), split_class(deepest_split(leaves)), len(leaves) != len(set(leaves)), verd[:6])
     if have_model:
-        diff_stream(rep, "mset.set", lines, impl, model, key_set)
+        checked_diff(rep, "mset.set", lines, impl, model, key_set)
     else:
         rep.evaluations += len(lines)
     for (line, items, leaves, kind), out in zip(set_cases, impl):
-        check_set_output(rep, line, items, leaves, out)
+        if not is_timeout(out):
+            check_set_output(rep, line, items, leaves, out)
     # permutation / duplicate invariance as seen in the outputs: equal sets => equal roots
     by_set = {}
     for (line, items, leaves, kind), out in zip(set_cases, impl):
         k = frozenset(leaves)
         r = out.split(" ")[0]
+        if is_timeout(out):
+            continue
         if k in by_set and by_set[k][1] != r:
             rep.add_failure("mset.set/oracle", line, r, by_set[k][1], "two orders/duplications of the same set give different roots; other order: " + by_set[k][0][:2000])
         by_set.setdefault(k, (line, r))
@@ -570,26 +628,26 @@ def run(ctx):
     # malformed / nested proofs are validated against their OWN root (so that the root test passes) and a random root
     fp_lines = ["mset.fromproof %s %s" % (hexo(pb), it.hex()) for pb, it, _ in extra]
     # also honest + mutated proofs through from_proof
-    for l, m in cands[:150 if tier == "quick" else 4000]:
+    for l, m in cands[:150 if tier == "quick" else 2000]:
         fp_lines.append("mset.fromproof %s %s" % (hexo(m[1]), m[2].hex()))
     fp_impl = run_impl(fp_lines, tier)
-    fp_model = C.run_lines(C.VRUN(UNIT), fp_lines) if have_model else ["MODEL-UNAVAILABLE"] * len(fp_lines)
+    fp_model = run_model(fp_lines, tier) if have_model else ["MODEL-UNAVAILABLE"] * len(fp_lines)
     if have_model:
-        diff_stream(rep, "mset.fromproof", fp_lines, fp_impl, fp_model,
-                    lambda c, i: ("fromproof", min(len(c) // 200, 10), i.split(" ")[-1][:2] if i != "E" else "E"))
+        checked_diff(rep, "mset.fromproof", fp_lines, fp_impl, fp_model,
+                     lambda c, i: ("fromproof", min(len(c) // 200, 10), i.split(" ")[-1][:2] if i != "E" else "E"))
     else:
         rep.evaluations += len(fp_lines)
     for (pb, it, kind), o in zip(extra, fp_impl):
-        if o not in ("E", "PANIC") and " " in o:
+        if o not in ("E", "PANIC", "TIMEOUT") and " " in o:
             own_root = o.split(" ")[0]
             cands.append(("mset.validate %s %s %s" % (hexo(pb), it.hex(), own_root), (kind, pb, it, None)))
         cands.append(("mset.validate %s %s %s" % (hexo(pb), it.hex(), nrng.bytes(32).hex()), (kind, pb, it, None)))
     vlines = [c[0] for c in cands]
     v_impl = run_impl(vlines, tier)
-    v_model = C.run_lines(C.VRUN(UNIT), vlines) if have_model else ["MODEL-UNAVAILABLE"] * len(vlines)
+    v_model = run_model(vlines, tier) if have_model else ["MODEL-UNAVAILABLE"] * len(vlines)
     vmeta = {c[0]: c[1] for c in cands}
     if have_model:
-        diff_stream(rep, "mset.validate", vlines, v_impl, v_model, lambda c, i: ("validate", vmeta[c][0], i))
+        checked_diff(rep, "mset.validate", vlines, v_impl, v_model, lambda c, i: ("validate", vmeta[c][0], i))
     else:
         rep.evaluations += len(vlines)
     verdicts = {}
@@ -629,18 +687,40 @@ def run(ctx):
     pools = [(2, [z(0x00), z(0x40), z(0x80), z(0xc0)]), (2, [z(0x00), z(0x20), z(0x80), z(0xa0)]),
              (2, [z(0x00), b"\x00" * 31 + b"\x01", z(0x80), z(0x80)[:31] + b"\x01"]),
              (3, [z(0x00), z(0x20)]), (3, [z(0x40), z(0xc0)])]
+    for d, pool in pools:
+        if tier == "quick":
+            olines.append("mset.o_exh %d %s" % (d, " ".join(x.hex() for x in pool)))
     if tier != "quick":
+        # the enumeration is cut into shards (pair number k of the top level goes to line k % nshards), so that
+        # run_lines spreads it over all cores and no single line runs for more than a few seconds unloaded
         pools += [(2, [z(0x00), z(0x40), z(0x80), z(0xc0), z(0x60)]), (3, [z(0x00), z(0x80), z(0xc0)]),
                   (2, [orng.bytes(32) for _ in range(4)]), (3, [z(0x10), z(0x30), z(0x20)])]
-    for d, pool in pools:
-        olines.append("mset.o_exh %d %s" % (d, " ".join(x.hex() for x in pool)))
-    o_out = run_impl(olines, tier, 150 if tier == "quick" else 3000)
+        # nesting is capped at 3 (4-leaf pools at nesting 3 would be ~9e9 trees); the largest pool here has 3e8 trees
+        for d, pool in pools:
+            nsh = 64 if (d >= 3 and len(pool) >= 3) else 16
+            for sh in range(nsh):
+                olines.append("mset.o_exh %d %d %d %s" % (d, sh, nsh, " ".join(x.hex() for x in pool)))
+    otimeout = 150 if tier == "quick" else 1200
+    o_out = run_impl(olines, tier, otimeout)
+    if any(is_timeout(o) for o in o_out):
+        # is the machine merely overloaded?  time a trivial reference line
+        tc = time.time()
+        cal = C._run_shard((C.VH(UNIT), ["mset.o_root 1"], 60))[0]
+        responsive = cal == "OK" and time.time() - tc < 5.0
     ostats = {}
     for l, o in zip(olines, o_out):
         op = l.split(" ")[0]
         ostats[op] = ostats.get(op, 0) + 1
         rep.evaluations += 1
-        if not o.startswith("OK"):
+        if o.startswith("UNCHECKED"):
+            note_unchecked(rep, op, 1, o[:120])
+        elif is_timeout(o):
+            if responsive:
+                rep.add_failure(op, l, o, "OK", "implementation-level oracle does not finish within %d s when run alone while "
+                                "a trivial reference call answers immediately: hang" % otimeout)
+            else:
+                note_unchecked(rep, op, 1, "timed out on an overloaded machine")
+        elif not o.startswith("OK"):
             rep.add_failure(op, l, o, "OK", "implementation-level oracle: " + o[:300])
         elif op in ("mset.o_mut", "mset.o_exh"):
             for kv in o.split(" ")[1:]:
